@@ -603,6 +603,11 @@ func init() {
 		if raw, ok := st.env.files["base/"+p[0]+"/"+p[1]]; ok {
 			rel, _ := strconv.ParseUint(p[1], 10, 32)
 			rd.LoadTOASTTable(uint32(rel)+1000+uint32(rep), append([]byte(nil), raw...))
+			// every fourth repetition hands the persistent reader the relation itself once more: loading is idempotent, a
+			// reload replaces what was loaded (seeded change C11-9: chunks appended to those already stored)
+			if rep%4 == 3 {
+				rd.LoadTOASTTable(uint32(rel), append([]byte(nil), raw...))
+			}
 		}
 		for _, q := range ptrs {
 			snap := append([]byte(nil), q...)
